@@ -6,6 +6,7 @@ from .lib.witness import PRELUDE, run_witness
 SELECT = (r'characteristic_value_access$|^bluetoe::details::generate_attribute::access$|^bluetoe::details::encryption_requirements::check$'
           r'|^bluetoe::server::(l2cap_output|handle_\w+|read_multiple\w*)$|^bluetoe::details::\w+::(operator\(\)|each|\w*collect\w*|\w*filter\w*)$|^bluetoe::link_layer::link_layer::\w*$')
 UNITS = lambda u: u in ('w_inst_att', 'w_inst_enc') or u.startswith('t_att') or u.startswith('t_encryption') or u.startswith('t_server') or u.startswith('t_char')
+EXACT = ('enc-truth-table', 'enc-wiring')   # verdicts computed from the meaning of the code (compiler / folding / symbolic terms): not gated by the golden structure
 META = {
     'level': 'three static layers: (T) the compiler evaluates characteristic_requires_encryption<> for all 64 placements of {none, requires, no, may} at '
              'server/service/characteristic level against the documented rule; (R) every characteristic value access implementation and the CCCD access begin with '
@@ -68,6 +69,11 @@ def check_access_fn(chk, fn, what):
         if arg_ok and tmpl_ok:
             decl = d
     if decl is None:
+        anyc = [c for c in fn.body.calls('check') if c.args() and strip_casts(c.args()[0]).n == 'connection_security']
+        if anyc:
+            # a security check is made, but through a name the rule cannot tie to encryption_requirements<RequiresEncryption> (alias, helper): no verdict
+            chk.broke('%s: check(args.connection_security) is called through `%s`, which the rule cannot identify as encryption_requirements<RequiresEncryption> (idiom not recognised)' % (what, (anyc[0].callee().text() if anyc[0].callee() is not None else '?')[:60]))
+            return
         chk.instance('enc-check-first', fn, what, False, 'access function does not start with encryption_requirements<RequiresEncryption>::check(args.connection_security)', key=key)
         return
     var = decl.n
@@ -122,20 +128,36 @@ def run(chk, facts, tier):
             ok = len(rets) == 1 and strip_casts(ret_value(rets[0])).n == 'success'
             chk.instance('enc-check-table', fn, 'encryption_requirements<false>::check', ok, '' if ok else 'must return success', key='check<false>')
             continue
-        rows = []
-        for r in fn.returns():
-            v = strip_casts(ret_value(r))
-            ats = guard_atoms(fn, r)
-            enc = [op for s, op, o in norm_atoms(ats, lambda n: n.n == 'is_encrypted') if cval(o) == 0]
+        # every way a value is returned (ternaries unfolded), with what is known there about is_encrypted and pairing_status == no_key
+        def outcomes(v, ats):
+            v = strip_casts(v)
             if v.k == 'ConditionalOperator':
-                c = atoms(v.c[0], True)
-                nokey = any(op == '==' and ((strip_casts(l).n == 'pairing_status' and strip_casts(r2).n == 'no_key') or (strip_casts(r2).n == 'pairing_status' and strip_casts(l).n == 'no_key')) for l, op, r2 in c if not isinstance(r2, int))
-                rows.append(('enc' if '!=' in enc else 'unenc' if '==' in enc else '?', 'nokey?' if nokey else '?', strip_casts(v.c[1]).n, strip_casts(v.c[2]).n))
-            else:
-                rows.append(('enc' if '!=' in enc else 'unenc' if '==' in enc else '?', '-', v.n, None))
-        want = {('enc', '-', 'success', None), ('unenc', 'nokey?', 'insufficient_authentication', 'insufficient_encryption')}
-        ok = set(rows) == want
-        chk.instance('enc-check-table', fn, 'encryption_requirements<true>::check', ok, '' if ok else 'decision table is %s, expected %s' % (sorted(rows, key=str), sorted(want, key=str)), key='check<true>')
+                return outcomes(v.c[1], ats + atoms(v.c[0], True)) + outcomes(v.c[2], ats + atoms(v.c[0], False))
+            return [(deep(v), ats)]
+        rows = set()
+        shape_ok = True
+        for r in fn.returns():
+            for v, ats in outcomes(ret_value(r), guard_atoms(fn, r)):
+                enc = None
+                nokey = None
+                for l, op, r2 in ats:
+                    for a, b in ((l, r2), (r2, l)):
+                        if isinstance(a, int):
+                            continue
+                        a = strip_casts(a)
+                        if a.n == 'is_encrypted' and (isinstance(b, int) or cval(b) is not None) and op in ('==', '!='):
+                            enc = (op == '!=') == (cval(b) == 0)
+                        if a.n == 'pairing_status' and not isinstance(b, int) and strip_casts(b).n == 'no_key' and op in ('==', '!='):
+                            nokey = op == '=='
+                if v is None or v.k not in REF_KINDS:
+                    shape_ok = False
+                    continue
+                rows.add((enc, nokey if enc is False else None, v.n))
+        want = {(True, None, 'success'), (False, True, 'insufficient_authentication'), (False, False, 'insufficient_encryption')}
+        if not chk.require(shape_ok, 'encryption_requirements<true>::check returns a computed value: idiom not recognised'):
+            continue
+        ok = rows == want
+        chk.instance('enc-check-table', fn, 'encryption_requirements<true>::check', ok, '' if ok else 'decision table (encrypted, no key, result) is %s, expected %s' % (sorted(rows, key=str), sorted(want, key=str)), key='check<true>')
 
     # --- wiring on the witness family (uuid low bit == expected)
     def uuid_of(targs):
